@@ -23,6 +23,7 @@ type AttrCache struct {
 	maxSize        int           // Maximum number of entries in the cache
 	accessList     *list.List    // Doubly-linked list for O(1) LRU tracking
 	enableNegative bool          // Enable negative caching
+	generation     uint64        // bumped by every invalidation (see Generation)
 }
 
 // CachedAttrs represents cached file attributes with expiration
@@ -189,11 +190,37 @@ func (c *AttrCache) removeFromAccessLog(path string) {
 	cached.listElement = nil
 }
 
+// Generation returns a token that changes whenever anything is invalidated.
+// A caller that is about to read the backend in order to fill the cache takes
+// the token first and stores the result with PutIfCurrent/PutNegativeIfCurrent:
+// if a concurrent request changed the backend and invalidated in between, the
+// (possibly outdated) result is not cached.
+func (c *AttrCache) Generation() uint64 {
+	c.mu.RLock()
+	defer c.mu.RUnlock()
+	return c.generation
+}
+
+// PutIfCurrent caches attrs unless something was invalidated since gen was taken.
+func (c *AttrCache) PutIfCurrent(path string, attrs *NFSAttrs, gen uint64) bool {
+	c.mu.Lock()
+	defer c.mu.Unlock()
+	if c.generation != gen {
+		return false
+	}
+	c.putLocked(path, attrs)
+	return true
+}
+
 // Put adds or updates cached attributes
 func (c *AttrCache) Put(path string, attrs *NFSAttrs) {
 	c.mu.Lock()
 	defer c.mu.Unlock()
+	c.putLocked(path, attrs)
+}
 
+// putLocked is Put with c.mu held.
+func (c *AttrCache) putLocked(path string, attrs *NFSAttrs) {
 	// Check if entry already exists
 	existing, exists := c.cache[path]
 
@@ -243,6 +270,16 @@ func (c *AttrCache) Put(path string, attrs *NFSAttrs) {
 
 // PutNegative adds a negative cache entry (file not found)
 func (c *AttrCache) PutNegative(path string) {
+	c.putNegative(path, 0, false)
+}
+
+// PutNegativeIfCurrent adds a negative cache entry unless something was
+// invalidated since gen was taken (see Generation).
+func (c *AttrCache) PutNegativeIfCurrent(path string, gen uint64) {
+	c.putNegative(path, gen, true)
+}
+
+func (c *AttrCache) putNegative(path string, gen uint64, checkGen bool) {
 	// Only store negative entries if enabled
 	c.mu.RLock()
 	enabled := c.enableNegative
@@ -255,6 +292,10 @@ func (c *AttrCache) PutNegative(path string) {
 
 	c.mu.Lock()
 	defer c.mu.Unlock()
+
+	if checkGen && c.generation != gen {
+		return
+	}
 
 	// Check if entry already exists
 	existing, exists := c.cache[path]
@@ -297,6 +338,7 @@ func (c *AttrCache) Invalidate(path string) {
 	c.mu.Lock()
 	defer c.mu.Unlock()
 
+	c.generation++
 	c.removeFromAccessLog(path)
 	delete(c.cache, path)
 }
@@ -308,6 +350,7 @@ func (c *AttrCache) InvalidateTree(path string) {
 	c.mu.Lock()
 	defer c.mu.Unlock()
 
+	c.generation++
 	prefix := path + "/"
 	if path == "/" {
 		prefix = "/"
@@ -325,6 +368,7 @@ func (c *AttrCache) Clear() {
 	c.mu.Lock()
 	defer c.mu.Unlock()
 
+	c.generation++
 	c.cache = make(map[string]*CachedAttrs)
 	c.accessList = list.New()
 }
@@ -373,6 +417,7 @@ func (c *AttrCache) InvalidateNegativeInDir(dirPath string) {
 	c.mu.Lock()
 	defer c.mu.Unlock()
 
+	c.generation++
 	// Find all negative entries that are children of this directory
 	toDelete := make([]string, 0)
 	for path, cached := range c.cache {
@@ -483,6 +528,7 @@ type DirCache struct {
 	maxDirSize int
 	hits       uint64
 	misses     uint64
+	generation uint64 // bumped by every invalidation (see Generation)
 }
 
 // CachedDirEntry represents cached directory entries with expiration
@@ -551,7 +597,30 @@ func (c *DirCache) Get(path string) ([]os.FileInfo, bool) {
 func (c *DirCache) Put(path string, entries []os.FileInfo) {
 	c.mu.Lock()
 	defer c.mu.Unlock()
+	c.putLocked(path, entries)
+}
 
+// Generation returns a token that changes whenever a listing is invalidated
+// (same protocol as AttrCache.Generation).
+func (c *DirCache) Generation() uint64 {
+	c.mu.RLock()
+	defer c.mu.RUnlock()
+	return c.generation
+}
+
+// PutIfCurrent caches the listing unless something was invalidated since gen was taken.
+func (c *DirCache) PutIfCurrent(path string, entries []os.FileInfo, gen uint64) bool {
+	c.mu.Lock()
+	defer c.mu.Unlock()
+	if c.generation != gen {
+		return false
+	}
+	c.putLocked(path, entries)
+	return true
+}
+
+// putLocked is Put with c.mu held.
+func (c *DirCache) putLocked(path string, entries []os.FileInfo) {
 	// Don't cache directories that exceed the maximum size
 	if len(entries) > c.maxDirSize {
 		return
@@ -625,6 +694,7 @@ func (c *DirCache) Invalidate(path string) {
 	c.mu.Lock()
 	defer c.mu.Unlock()
 
+	c.generation++
 	c.removeFromAccessList(path)
 	delete(c.entries, path)
 }
@@ -634,6 +704,7 @@ func (c *DirCache) InvalidateTree(path string) {
 	c.mu.Lock()
 	defer c.mu.Unlock()
 
+	c.generation++
 	prefix := path + "/"
 	if path == "/" {
 		prefix = "/"
@@ -651,6 +722,7 @@ func (c *DirCache) Clear() {
 	c.mu.Lock()
 	defer c.mu.Unlock()
 
+	c.generation++
 	c.entries = make(map[string]*CachedDirEntry)
 	c.accessList = list.New()
 }
